@@ -302,7 +302,77 @@ class FirstAfter(RecProbe):
                 T.describe_tp(probe), R.rec_line(rec), m, out, "None" if want is None else "at instant %d" % want)
 
 
+class QuerySeq(Op):
+    """Several queries on ONE recurrence object, one after the other (an application keeps its recurrence): the
+    answers must be what fresh objects give - membership, first-after, next / prev, indexing in any order."""
+    prop = PROP
+    name = "rqueryseq"
+    model = False
+
+    def gen(self, rng, tier, boost):
+        n = 400 * boost if tier == "quick" else 4000 * boost
+        for _ in range(n):
+            m = gens.mode(rng)
+            rec, info = R.gen_rec(rng, m, nominal=0.25, max_reps=12)
+            d = info["interval"]
+            if d[0] == "U" and d[3] >= 36500:
+                continue
+            series, _rev = R.expected_series(m, info, 8)
+            if len(series) < 2:
+                continue
+            probes = []
+            for _ in range(rng.randint(3, 7)):
+                base = rng.choice(series)
+                delta = rng.choice([0, 0, 0, 0, 1, -1, 3600])
+                tzh, tzm = (base[7], base[8]) if rng.random() < 0.6 else gens.offset(rng)
+                probes.append((rng.choice(["valid", "valid", "valid", "first", "item"]),
+                               T.tp_from_inst(m, T.inst(m, base) + delta, rng.choice("cow"), tzh, tzm),
+                               rng.randint(0, 7)))
+            yield (m, rec, tuple(sorted(info.items())), tuple(probes))
+
+    def line(self, a):
+        return "rqueryseq %s %s | %s" % (a[0], R.rec_line(a[1]), " ; ".join(
+            "%s %s %d" % (k, T.tp_str(p), i) for k, p, i in a[3]))
+
+    @staticmethod
+    def ask(rec, kind, probe, idx):
+        if kind == "valid":
+            return "1" if rec.get_is_valid(T.mk_tp(probe)) else "0"
+        if kind == "first":
+            if rec.start_point is None:
+                return "-"
+            q = rec.get_first_after(T.mk_tp(probe))
+            return "_" if q is None else T.canon_tp(q)
+        try:
+            return T.canon_tp(rec[idx])
+        except IndexError:
+            return "IndexError"
+
+    def impl(self, a):
+        m, rec, info, probes = a
+        set_mode(m)
+        kept = R.mk_rec(rec)
+        problems = []
+        outs = []
+        for k, (kind, probe, idx) in enumerate(probes):
+            got = self.ask(kept, kind, probe, idx)
+            fresh = self.ask(R.mk_rec(rec), kind, probe, idx)
+            outs.append(got)
+            if got != fresh:
+                problems.append("query %d (%s %s %d): the kept object answers %s, a fresh one %s" % (
+                    k, kind, T.describe_tp(probe), idx, got, fresh))
+        return " ; ".join(outs) + (" PROBLEMS: " + " | ".join(problems[:3]) if problems else "")
+
+    def oracle(self, a, out):
+        if "PROBLEMS" in out or out.startswith(("err", "EXC", "Timeout")):
+            return "%s in %s: %s" % (R.rec_line(a[1]), a[0], out)
+
+    def label(self, a):
+        info = dict(a[2])
+        return "rqueryseq/%s/fmt%d/%s" % (a[0], info["fmt"], "bounded" if info["reps"] else "unbounded")
+
+
 def ops():
     import recmm
-    return [IsValid(), GetItem(), Next(), Prev(), FirstAfter(),
+    return [IsValid(), GetItem(), Next(), Prev(), FirstAfter(), QuerySeq(),
             recmm.RecMMOp(PROP, "mmquery", ["mmritem", "mmrvalid", "mmrvalid", "mmrnext", "mmrprev", "mmrfirst", "mmrfirst"], 700)]
